@@ -171,4 +171,6 @@ ExtraChecked == last.kind = "setattr" =>
                    (last.ok <=> (last.s \notin DOMAIN units /\ \A p \in PrefixChars : <<p>> \o last.s \notin DOMAIN units))
 
 Emit == last.kind = "none" \/ PrintT(<<"VF", ToJson(last)>>)
+\* (large runs: only the outcomes that are replayed, not the string-building steps)
+EmitResults == last.kind \notin {"parse", "format", "setattr"} \/ PrintT(<<"VF", ToJson(last)>>)
 =============================================================================
